@@ -144,6 +144,12 @@ def model(repo):
     if ok:
         a0 = app[0].args[0]
         ok = a0 is rcall or (isinstance(a0, ast.Name) and any(isinstance(n, ast.Assign) and U(n.targets[0]) == a0.id and n.value is rcall for n in ast.walk(rows_loop)))
+    if ok:
+        q = app[0]
+        while q is not rows_loop:
+            q = q._parent
+            if isinstance(q, (ast.If, ast.Try)):
+                ok = False
     out["append_ok"] = ok
     if not ok:
         P("the encoded row is not appended to the rowInfos of the tile created for this index")
